@@ -108,7 +108,7 @@ def tokenize(text):
                 ops.append(["x", 0, w])
         elif t.group(2):
             lit = t.group(2).replace(" ", "")
-            v = _signed32(int(lit, 0))
+            v = _signed32(int(lit, 16) if "x" in lit.lower() else int(lit, 10))
             if v is None:
                 return None
             if v == 0 and lit.startswith("-"):  # "#-0": subtract an offset of zero
